@@ -199,6 +199,7 @@ def check_case(ctx, case):
                               expected=[float(v) for v in exp], observed=[float(v) for v in tbnd],
                               case={**case, "configs": [[p, ps]]})
         answers = []
+        held = None          # (arrays as returned by the previous query, copies taken at that time)
         for q in case["queries"]:
             inter, cov = brute(b, d, q)
             ok, gi, tb = ctx.guarded(tree.intersects, q)
@@ -209,6 +210,17 @@ def check_case(ctx, case):
             if not ok:
                 rec_raise("covers_overlaps", gco, tb)
                 break
+            # an answer already handed out must not change when the index is queried again
+            if held is not None:
+                ctx.count("answers_rechecked_after_next_query")
+                if any(not np.array_equal(np.asarray(a), b) for a, b in zip(held[0], held[1])):
+                    ctx.violation("answer-mutated", f"rtree:earlier-answer-overwritten-by-next-query:{nan_cls}",
+                                  {"d": d, "n": n, "page_size": ps, "p": p, "query": q},
+                                  expected=[b.tolist()[:20] for b in held[1]],
+                                  observed=[np.asarray(a).tolist()[:20] for a in held[0]],
+                                  case={**case, "configs": [[p, ps]]})
+            held = ([gi, gco[0], gco[1]], [np.array(gi, copy=True), np.array(gco[0], copy=True),
+                                          np.array(gco[1], copy=True)])
             gi = np.asarray(gi).astype(np.int64)
             gc, go = (np.asarray(x).astype(np.int64) for x in gco)
             ctx.count("queries_checked")
